@@ -10,6 +10,8 @@ pub struct CDriver {
     stdin: ChildStdin,
     stdout: BufReader<ChildStdout>,
     pub last_ids: String,
+    /// the driver did not answer within 10 s and was killed (the library call never returned)
+    pub hung: bool,
 }
 
 fn kind_from_c(k: i32) -> ErrKind {
@@ -33,9 +35,27 @@ impl CDriver {
             stdin,
             stdout,
             last_ids: String::new(),
+            hung: false,
         })
     }
     fn line(&mut self) -> String {
+        // a library call that never returns must not hang the harness: wait at most 10 s of real
+        // time for the answer, then kill the driver (a new one is started for the next case)
+        if self.stdout.buffer().is_empty() {
+            use std::os::unix::io::AsRawFd;
+            let mut pfd = libc::pollfd {
+                fd: self.stdout.get_ref().as_raw_fd(),
+                events: libc::POLLIN,
+                revents: 0,
+            };
+            let n = unsafe { libc::poll(&mut pfd, 1, 10_000) };
+            if n == 0 {
+                self.hung = true;
+                let _ = self.child.kill();
+                let _ = self.child.wait();
+                return String::new();
+            }
+        }
         let mut s = String::new();
         let _ = self.stdout.read_line(&mut s);
         s.trim_end().to_string()
@@ -107,6 +127,12 @@ impl CDriver {
                 detail: format!("driver protocol error: {:?}", l),
             }
         }
+    }
+    /// Queue a write to the segment file that the driver performs at the next clock read made by
+    /// the library (i.e. while the client is inside clockbound_now).
+    pub fn queue_update(&mut self, path: &str, offset: usize, bytes: &[u8]) {
+        let hex: String = bytes.iter().map(|b| format!("{:02x}", b)).collect();
+        let _ = writeln!(self.stdin, "U {} {} {}", path, offset, hex);
     }
     pub fn close(&mut self) -> bool {
         let _ = writeln!(self.stdin, "C");
